@@ -78,7 +78,10 @@ XchgAll ==
           LET size == XchgSize(cfg.sh, H.of, H.ot, P, cfg.np, rc) chunk == size \div nsp me == rc[a0]
               send(j) == arr[[rc EXCEPT ![a0] = j]][H.t]
               old == arr[rc][H.r]
-              bad == IsError(old) \/ size > Len(old) \/ \E j \in 0..(nsp - 1) : IsError(send(j)) \/ size > Len(send(j))
+              \* layout.py:517 "if (self._buffer_size == 0): return": a rank whose buffer size is 0 takes itself for the plot-only
+              \* rank and skips the whole call; if a member of its sub-communicator does not skip, that member waits for ever
+              idle == \E j \in 0..(nsp - 1) : (BufSize([rc EXCEPT ![a0] = j]) = 0) # (BufSize(rc) = 0)
+              bad == idle \/ IsError(old) \/ size > Len(old) \/ \E j \in 0..(nsp - 1) : IsError(send(j)) \/ size > Len(send(j))
                      \/ XchgSize(cfg.sh, H.of, H.ot, P, cfg.np, [rc EXCEPT ![a0] = j]) # size
           IN [arr[rc] EXCEPT ![H.r] = IF bad THEN Error
                 ELSE [p \in 1..Len(old) |-> IF p <= size THEN send((p - 1) \div chunk)[me * chunk + ((p - 1) % chunk) + 1] ELSE old[p]]]]
@@ -98,6 +101,9 @@ SameCopy ==  \* source_name == dest_name: copy the first layout.size entries
     /\ sub' = "done" /\ UNCHANGED <<cfg, k, stage>>
 Next == Choose \/ Load \/ PackAll \/ XchgAll \/ UnpackAll \/ CopyAll \/ SameCopy
 
+\* over-decomposed boxes (GridFits <- AnyFits) are explored under CONSTRAINT NoIdle: configurations in which some rank owns nothing
+\* in any layout are outside what the handler supports (the idle rank skips collectives its neighbours issue: NoError fails there)
+NoIdle == stage < 2 \/ \A rc \in Ranks : BufSize(rc) > 0
 (* ---- refinement of LayoutAbs and the side conditions of C01 / C02 ---- *)
 NoError == stage = 2 => \A rc \in Ranks : ~IsError(arr[rc].S) /\ ~IsError(arr[rc].D) /\ ~IsError(arr[rc].B)
 DestCorrect == (stage = 2 /\ sub = "done") =>
